@@ -18,7 +18,11 @@ THEOREMS = ['Fsic.C18.' + n for n in [
     'instance_aliases_shortened', 'alias_transparent_step', 'alias_transparent', 'alias_indistinguishable',
     'declared_alias_resolves_alike', 'ctor_transparent', 'ctor_indistinguishable', 'alias_no_storage', 'rename_only',
     'rename_injective', 'rename_no_pref', 'rename_prefers', 'prefCheck_rejects_ambiguous', 'rename_rejects_ambiguous',
-    'rename_total_after_check', 'linOrd_strLe']]
+    'rename_total_after_check', 'linOrd_strLe',
+    'export_is_rename', 'rename_only_opts', 'rename_commutes_with_selection', 'rename_commutes_with_append',
+    'export_opts_raise_alike', 'unaliased_label_kept',
+    'class_aliases_nearest_declaration', 'instance_uses_own_class_aliases', 'existing_instances_keep_their_map',
+    'instantiation_order_irrelevant', 'reassigned_aliases_used', 'reassignment_leaves_other_declarations']]
 RULE = ('(F) guard: 4 fixed cyclic/self maps are constructed in subprocesses (3 s limit, in parallel) before anything '
         'else; a call that does not return is a violation and keeps cyclic/self maps out of the in-process parts of '
         'that run. (A) every alias dict with keys from 4 alias names and values from those names + 2 variables + 1 '
@@ -35,8 +39,26 @@ RULE = ('(F) guard: 4 fixed cyclic/self maps are constructed in subprocesses (3 
         'hand-written models with random alias topologies (chains <= 3, many-to-one, undefined targets, self-maps on '
         'variables / unused / undefined names) driven through random spellings vs a twin driven through canonical '
         'names: every result, full state by bits/dtype, index, names, __dict__ keys, status/iterations after '
-        'solve/solve_t/solve_period; export vs plain export. distinct = distinct (part, alias map, preferences, '
-        'history); non-trivial = the map is not empty and (D, E) the case goes through at least one declared name')
+        'solve/solve_t/solve_period; export vs plain export. (G) export with options: random models, linkers and plain '
+        'containers with underscore-prefixed variables (aliased or not), unsolved / solved / one period solved, alias '
+        'maps that also reach internal variables and the status/iterations columns: for all 8 combinations of status / '
+        'iterations / include_internal, each spelled in full and with only the non-default flags, '
+        'to_dataframe(use_aliases=True, **opts) vs to_dataframe(**opts) (shape, index, every column by position, '
+        'labels renamed only to aliases, preferred names, status/iterations/internal columns present iff requested, '
+        'options the base class rejects are rejected alike) and vs the same object without the mixin; labels vs the '
+        'model (names filtered by include_internal ++ status? ++ iterations?, renamed). (H) class hierarchies over '
+        'parser-built models: 8 fixed shapes (child re-declares / inherits, grandchild inherits the nearest / skips to '
+        'the root, siblings, PREFERRED_NAMES re-declared alone / inherited under re-declared ALIASES, undeclared root) '
+        'and random trees of 2-5 classes whose maps draw on 5 shared alias names; instances parent-first / '
+        'child-first / interleaved, subclasses defined before or after the first instance; then Cls.ALIASES = new '
+        'dict, Cls.ALIASES[k] = v, Cls.PREFERRED_NAMES = ..., del Cls.ALIASES followed by new instances and by '
+        'operations on and copies of old ones: every instance vs a twin of the mirrored hierarchy through canonical names '
+        '(constructor keywords, every name of the shared pool read right after construction / after later class-level '
+        'events / at the end, histories, export), class __dict__ entries untouched by instantiation; self.aliases, '
+        'preferred_names, resolutions and export labels of every instance vs the model of the class table. '
+        'distinct = distinct (part, alias map, preferences, '
+        'history); non-trivial = the map is not empty and (D, E) the case goes through at least one declared name, '
+        '(H) at least one declared map and two instances')
 TRUSTED = ['pandas DataFrame.rename(columns=d) maps each label through d, leaves other labels and all data alone '
            '(exercised by the export oracle on every case)',
            'Python set/dict semantics as modelled (set intersection size, dict insertion order, later key wins)',
@@ -57,12 +79,25 @@ ASSUMPTIONS = ['ALIASES is a dict of str to str; alias names are not names of at
                'whether `self.aliases` still lists an entry X -> X is not an observable of the property (oracle); the '
                'model comparison does compare the items',
                'label -> position lookup and NumPy assignment semantics are parameters of the model (C09/C10)',
+               'export with options: the clause is read relative to the same options without use_aliases; which columns '
+               'the options select is the base class\'s business and is decided on the plain names (an underscore-prefixed '
+               'alias of a public variable is exported, a public alias of an internal variable is not unless '
+               'include_internal); options the base class does not take (plain container) must be rejected alike',
+               'class hierarchies: single inheritance below the mixin (the MRO is the chain of parents); an instance lives '
+               'by Cls.ALIASES / Cls.PREFERRED_NAMES as Python attribute look-up finds them when it is created (nearest own '
+               'declaration; in-place changes reach the dict of the declaring class, hence every class that inherits it); '
+               'AliasMixin.ALIASES itself is never written by the harness; multiple inheritance between alias-enabled '
+               'classes is not generated',
+               'copy() of an old instance after class-level changes: must behave as the instance it copies (own map kept); '
+               'not claimed where the class\'s current ALIASES / PREFERRED_NAMES are themselves rejected by the constructor '
+               '(copy() re-runs the constructor on them and raises ValueError on the current tree - counted as '
+               '`hier-copy:class-declaration-now-rejected`)',
                'read/write = the four wrapped accessors, replace_values, constructor keywords and code that uses them '
                '(weaker reading); paths the mixin does not wrap are not claimed: `name in model`, eval() of an expression '
                'that spells an alias, reindex(**fill_values) keyed by an alias are not alias-aware on the current tree']
 
 META = {
-    "text": "Theorems for every alias map, store, value semantics and operation history. Alias stage of AliasMixin.__init__ (self-map filter, loop bounded by range(len(aliases)+1), else: raise ValueError, second filter), at full strength for EVERY dict: if no cycle remains after dropping the entries X -> X it returns the remaining aliases each pointing at the end of its chain (len+1 passes always suffice: pigeonhole, distances double per pass), otherwise it raises ValueError - ValueError iff a cycle remains, both directions; {'Y': 'Y'} yields the empty map, {'A': 'B', 'B': 'A'} raises; the filter after the loop is dead code, the one in front is not. On an instance map every read/write/label access/bulk replacement/constructor keyword through a name is the plain container's operation on resolve(name), for all histories (refinement), two spellings that resolve alike are indistinguishable, the index never changes and no attribute named like an alias is ever created; the export changes labels only (data, count, order kept), a changed label is an alias of the old one, labels stay distinct under the guard, the preferred name is chosen, ambiguous preferences are rejected by the constructor check (iff) and by the export. The model is tied to the code by exhaustive comparison over small alias maps (plain, self-maps, cycles) / preference lists and random histories; a twin-model oracle searches the real code, self-maps included.",
+    "text": "Theorems for every alias map, store, value semantics and operation history. Alias stage of AliasMixin.__init__ (self-map filter, loop bounded by range(len(aliases)+1), else: raise ValueError, second filter), at full strength for EVERY dict: if no cycle remains after dropping the entries X -> X it returns the remaining aliases each pointing at the end of its chain (len+1 passes always suffice: pigeonhole, distances double per pass), otherwise it raises ValueError - ValueError iff a cycle remains, both directions; {'Y': 'Y'} yields the empty map, {'A': 'B', 'B': 'A'} raises; the filter after the loop is dead code, the one in front is not. On an instance map every read/write/label access/bulk replacement/constructor keyword through a name is the plain container's operation on resolve(name), for all histories (refinement), two spellings that resolve alike are indistinguishable, the index never changes and no attribute named like an alias is ever created; the export changes labels only (data, count, order kept), a changed label is an alias of the old one, labels stay distinct under the guard, the preferred name is chosen, ambiguous preferences are rejected by the constructor check (iff) and by the export. The model is tied to the code by exhaustive comparison over small alias maps (plain, self-maps, cycles) / preference lists and random histories; a twin-model oracle searches the real code, self-maps included. Export with options: the export is rename with a label map that depends on the instance only (export_is_rename), so for every combination of status / iterations / include_internal the aliased frame has exactly the columns and data of the plain frame with the same options (rename_only_opts), renaming commutes with the option-driven selection and with appending the solution columns, and whether it raises does not depend on the options. Class hierarchies: Cls.ALIASES is the nearest own declaration along the parents (class_aliases_nearest_declaration); for every history of class statements, constructor calls, re-assignments, in-place changes and deletions an instance holds the constructor's result on its own class's ALIASES / PREFERRED_NAMES as of its creation and keeps it (instance_uses_own_class_aliases, existing_instances_keep_their_map), the constructor never writes class-level state, so the order of instantiation is irrelevant (instantiation_order_irrelevant).",
     "design_ref": "DESIGN.md §5 M8, §6 C18, §7 row 14",
     "note": "Trusted: Lean kernel; axioms propext/Classical.choice/Quot.sound; the correspondence harness, which validates the hand-written model on generated cases only; pandas rename and Python dict/set semantics as modelled. Findings self-alias-hang / alias-cycle-hang fixed by ca9bf22 (a subprocess guard with a 3 s limit still watches for the hang; an in-process alarm backs it up). Guards: alias names are not variable/attribute names (no-duplicate-column claim, twin oracle).",
     "technique": "Lean 4 proof (loop invariant with chain doubling, pigeonhole, refinement by induction over histories) + differential correspondence check + twin-model oracle"
@@ -518,14 +553,22 @@ def check_prefcheck(ctx, rep, maps, prefs, budget=None):
 # ---------------------------------------------------------------------------------------------------------------
 # export oracle (S) and export correspondence (T)
 
-def col_bytes(df, i):
-    a = df.iloc[:, i].to_numpy()
+def arr_bytes(a):
     if a.dtype == object:
         return ('O', tuple(map(repr, a.tolist())))
     return (a.dtype.str, a.tobytes())
 
 
-def export_oracle(rep, case, m, pref, base, out, err, declared_pref_valid):
+def col_bytes(df, i):
+    return arr_bytes(df.iloc[:, i].to_numpy())
+
+
+def frame_cols(df):
+    """Every column by position (duplicate labels are kept apart): dtype + raw bytes."""
+    return [arr_bytes(ser.to_numpy()) for _, ser in df.items()]
+
+
+def export_oracle(rep, case, m, pref, base, out, err, declared_pref_valid, prefix='export'):
     """`base` = to_dataframe(), `out` = to_dataframe(use_aliases=True) or None with `err` the exception class.
     `pref` = the instance's preferred_names at export time; `declared_pref_valid`: they are the class-level ones
     (so they passed the constructor)."""
@@ -539,44 +582,44 @@ def export_oracle(rep, case, m, pref, base, out, err, declared_pref_valid):
     if out is None:
         if pref_ambiguous(m, pref):
             return 'rejected'
-        rep.violate('export-raises', f'to_dataframe(use_aliases=True) raised {err} although the preferences {pref} '
+        rep.violate(prefix + '-raises', f'to_dataframe(use_aliases=True) raised {err} although the preferences {pref} '
                     f'are unambiguous (ALIASES={m})', case)
         return 'raised'
     if amb_aliases:
-        rep.violate('export-ambiguous-not-rejected', f'preferred_names={pref} holds two aliases of one variable '
+        rep.violate(prefix + '-ambiguous-not-rejected', f'preferred_names={pref} holds two aliases of one variable '
                     f'(ALIASES={m}) but the export did not raise', case)
         return 'accepted-ambiguous'
     if out.shape != base.shape or list(out.index) != list(base.index):
-        rep.violate('export-shape', f'use_aliases changed the shape/index: {base.shape} -> {out.shape}', case)
+        rep.violate(prefix + '-shape', f'use_aliases changed the shape/index: {base.shape} -> {out.shape}', case)
         return 'shape'
-    for i in range(base.shape[1]):
-        if col_bytes(out, i) != col_bytes(base, i):
-            rep.violate('export-data-changed', f'column {i} ({labels[i]!r}) differs between the plain and the aliased '
+    for i, (x, y) in enumerate(zip(frame_cols(out), frame_cols(base))):
+        if x != y:
+            rep.violate(prefix + '-data-changed', f'column {i} ({labels[i]!r}) differs between the plain and the aliased '
                         'export', case)
             return 'data'
     new = [str(c) for c in out.columns]
     for old, nw in zip(labels, new):
         if nw != old and not (nw in m and chain_end(m, nw) == old):
-            rep.violate('export-label-not-alias', f'column {old!r} was renamed to {nw!r}, which is not an alias of it '
+            rep.violate(prefix + '-label-not-alias', f'column {old!r} was renamed to {nw!r}, which is not an alias of it '
                         f'(ALIASES={m})', case)
             return 'label'
     if keys_shadow or pref_ambiguous(m, pref):
         return 'outside-guard'
     if len(set(labels)) == len(labels) and len(set(new)) != len(new):
-        rep.violate('export-duplicate-labels', f'aliased export has duplicate labels {new} (ALIASES={m})', case)
+        rep.violate(prefix + '-duplicate-labels', f'aliased export has duplicate labels {new} (ALIASES={m})', case)
         return 'dup'
     for p in pref:
         t = chain_end(m, p)
         if t in labels:
             got = new[labels.index(t)]
             if got != p:
-                rep.violate('export-preferred-not-used', f'{p!r} is the preferred name of {t!r} but the column is '
+                rep.violate(prefix + '-preferred-not-used', f'{p!r} is the preferred name of {t!r} but the column is '
                             f'called {got!r} (ALIASES={m}, preferred_names={pref})', case)
                 return 'pref'
     if not pref:
         for t, al in aliases_of.items():
             if t in labels and len(al) == 1 and new[labels.index(t)] != al[0]:
-                rep.violate('export-alias-not-used', f'{t!r} has the single alias {al[0]!r} and no preferences are '
+                rep.violate(prefix + '-alias-not-used', f'{t!r} has the single alias {al[0]!r} and no preferences are '
                             f'declared, yet the column is called {new[labels.index(t)]!r}', case)
                 return 'unused'
     return 'ok'
@@ -986,47 +1029,55 @@ def apply_op(obj, op, names):
         return ('exc', exc_name(e))
 
 
-def gen_twin_case(rng):
-    hw = rng.random() < 0.25
-    script = None if hw else rng.randrange(len(SCRIPTS))
-    variables = ['Y', 'C', 'G', 'alpha'] if hw else list(built(script).NAMES)
-    items = random_alias_map(rng, variables, E_ALIAS, ['undefined_x'], max_n=6)
-    m = dict(items)
-    n = rng.choice([3, 4, 6])
-    strspan = rng.random() < 0.2
-    span = [f'p{i}' for i in range(n)] if strspan else list(range(2000, 2000 + n))
-    spellings = list(m) + variables
+def spellings_by_target(m, variables):
     by_target = {}
-    for s in spellings:
-        by_target.setdefault(chain_end(m, s), []).append(s)
-    targets = [t for t in by_target if t in variables]
+    for sp in list(m) + list(variables):
+        by_target.setdefault(chain_end(m, sp), []).append(sp)
+    return by_target, [t for t in by_target if t in variables]
+
+
+def gen_value(rng, n, whole=True, bad=True):
+    r = rng.random()
+    if whole and r < 0.25:
+        return [rng.uniform(-5, 5) for _ in range(n)]
+    if whole and r < 0.35:
+        return np.array([rng.uniform(-5, 5) for _ in range(n)])
+    if whole and r < 0.4 and bad:
+        return [1.0] * (n + 1)
+    if r < 0.5:
+        return rng.randrange(-3, 9)
+    if r < 0.55:
+        return float('nan')
+    return rng.uniform(-10, 10)
+
+
+def gen_kwargs(rng, m, variables, n, bad=True):
+    by_target, targets = spellings_by_target(m, variables)
+    kwargs = {}
+    for t in rng.sample(targets, min(len(targets), rng.choice([0, 1, 2, 3]))):
+        kwargs[rng.choice(by_target[t])] = gen_value(rng, n, True, bad)
+    if bad and rng.random() < 0.1:
+        kwargs[rng.choice(['undefined_x', 'nosuch'])] = 1.5
+    return kwargs
+
+
+def gen_ops(rng, m, variables, span, count, solve=True):
+    """Operations through randomly chosen spellings of the variables (names as `m` resolves them)."""
+    n = len(span)
+    by_target, targets = spellings_by_target(m, variables)
 
     def value(whole=True):
-        r = rng.random()
-        if whole and r < 0.25:
-            return [rng.uniform(-5, 5) for _ in range(n)]
-        if whole and r < 0.35:
-            return np.array([rng.uniform(-5, 5) for _ in range(n)])
-        if whole and r < 0.4:
-            return [1.0] * (n + 1)
-        if r < 0.5:
-            return rng.randrange(-3, 9)
-        if r < 0.55:
-            return float('nan')
-        return rng.uniform(-10, 10)
+        return gen_value(rng, n, whole)
 
     def pick():
         t = rng.choice(targets)
         return rng.choice(by_target[t])
-    kwargs = {}
-    for t in rng.sample(targets, min(len(targets), rng.choice([0, 1, 2, 3]))):
-        kwargs[rng.choice(by_target[t])] = value()
-    if rng.random() < 0.1:
-        kwargs[rng.choice(['undefined_x', 'nosuch'])] = 1.5
+    kinds = ['getattr', 'setattr', 'inplace', 'getitem', 'setitem', 'getat', 'setat', 'getat', 'setat', 'replace']
+    if solve:
+        kinds += ['solve', 'solve_t', 'solve_period']
     ops = []
-    for _ in range(rng.randrange(2, 10)):
-        k = rng.choice(['getattr', 'setattr', 'inplace', 'getitem', 'setitem', 'getat', 'setat', 'getat', 'setat',
-                        'replace', 'solve', 'solve_t', 'solve_period'])
+    for _ in range(count):
+        k = rng.choice(kinds)
         nm = pick() if rng.random() < 0.93 else rng.choice(['nosuch', 'undefined_x'] + [x for x in m if chain_end(m, x) == 'undefined_x'])
         op = {'k': k, 'names': [nm]}
         if k in ('setattr', 'setitem'):
@@ -1054,6 +1105,20 @@ def gen_twin_case(rng):
         elif k == 'solve_period':
             op.update(p=span[rng.randrange(1, n)], max_iter=rng.choice([1, 5, 30]))
         ops.append(op)
+    return ops
+
+
+def gen_twin_case(rng):
+    hw = rng.random() < 0.25
+    script = None if hw else rng.randrange(len(SCRIPTS))
+    variables = ['Y', 'C', 'G', 'alpha'] if hw else list(built(script).NAMES)
+    items = random_alias_map(rng, variables, E_ALIAS, ['undefined_x'], max_n=6)
+    m = dict(items)
+    n = rng.choice([3, 4, 6])
+    strspan = rng.random() < 0.2
+    span = [f'p{i}' for i in range(n)] if strspan else list(range(2000, 2000 + n))
+    kwargs = gen_kwargs(rng, m, variables, n)
+    ops = gen_ops(rng, m, variables, span, rng.randrange(2, 10))
     names_for_pref = list(dict.fromkeys(list(m) + variables))   # X -> X with X a variable: once
     pref = rng.sample(names_for_pref, min(len(names_for_pref), rng.choice([0, 0, 1, 2, 3])))
     return {'part': 'twin', 'hw': hw, 'script': script, 'm': items, 'span': span, 'strict': rng.random() < 0.15,
@@ -1090,6 +1155,31 @@ def unjson_case(case):
             return [u(v) for v in x]
         return x
     return u(case)
+
+
+MIXIN_ATTRS = ('aliases', 'preferred_names')
+
+
+def drive_ops(rep, jc, a, t, m, ops, prefix='', who=''):
+    """The aliased object `a` through the spellings of `ops`, its twin `t` through the canonical names (`m` = the
+    alias map `a` is expected to live by): every result and the full state after every operation."""
+    def canon_names(names):
+        return [chain_end(m, x) for x in names]
+    for i, op in enumerate(ops):
+        ra = apply_op(a, op, op['names'])
+        rt = apply_op(t, op, canon_names(op['names']))
+        if ra != rt:
+            rep.violate(prefix + 'twin-diverges:' + op['k'], f'{who}op {i} {op["k"]} through {op["names"]} gave '
+                        f'{short(ra)}; the twin through {canon_names(op["names"])} gave {short(rt)} (ALIASES={m})', jc)
+            return 'op'
+        sa, st = full_state(a, MIXIN_ATTRS, t), full_state(t)
+        if sa != st:
+            key = prefix + ('alias-adds-storage' if (sa['index'] != st['index'] or sa['keys'] != st['keys'])
+                            else 'twin-diverges:' + op['k'])
+            rep.violate(key, f'{who}after op {i} {op["k"]} through {op["names"]} the state differs from the twin: '
+                        + diff_state(sa, st), jc)
+            return 'state'
+    return None
 
 
 def run_twin_case(ctx, rep, case, budget, tcases=None):
@@ -1147,19 +1237,9 @@ def run_twin_case(ctx, rep, case, budget, tcases=None):
     if sa != st:
         rep.violate('twin-diverges:constructor', 'state after construction differs from the canonical twin: ' + diff_state(sa, st), jc)
         return 'ctor'
-    for i, op in enumerate(case['ops']):
-        ra = apply_op(a, op, op['names'])
-        rt = apply_op(t, op, canon_names(op['names']))
-        if ra != rt:
-            rep.violate('twin-diverges:' + op['k'], f'op {i} {op["k"]} through {op["names"]} gave {short(ra)}; the twin '
-                        f'through {canon_names(op["names"])} gave {short(rt)} (ALIASES={m})', jc)
-            return 'op'
-        sa, st = full_state(a, extra, t), full_state(t)
-        if sa != st:
-            key = 'alias-adds-storage' if (sa['index'] != st['index'] or sa['keys'] != st['keys']) else 'twin-diverges:' + op['k']
-            rep.violate(key, f'after op {i} {op["k"]} through {op["names"]} the state differs from the twin: '
-                        + diff_state(sa, st), jc)
-            return 'state'
+    r = drive_ops(rep, jc, a, t, m, case['ops'])
+    if r is not None:
+        return r
     # export
     import pandas as pd
     base, out, xerr = run_export(a)
@@ -1215,6 +1295,695 @@ def check_twins(ctx, rep, rng, count, budget=None):
 
 
 # ---------------------------------------------------------------------------------------------------------------
+# (G) export with options: to_dataframe(use_aliases=True, **opts) against to_dataframe(**opts)
+
+OPT_FLAGS = ('status', 'iterations', 'include_internal')
+OPT_DEFAULTS = {'status': True, 'iterations': True, 'include_internal': False}
+OPT_COMBOS = [dict(zip(OPT_FLAGS, bits)) for bits in itertools.product([True, False], repeat=3)]
+G_PUBLIC = ['Y', 'C', 'G', 'H', 'alpha', 'X']
+G_INTERNAL = ['_C', '_h', '_t', '_beta', '_X']
+G_ALIAS = ['GDP', 'income', 'cons', 'wealth', 'k1', '_priv', '_k2', 'tax']
+
+
+def combo_name(o):
+    return ''.join(c if o[f] else '-' for c, f in zip('SIN', OPT_FLAGS))
+
+
+def export_variants():
+    """Every combination of the three flags, each spelled out in full and with only the non-default flags."""
+    out = []
+    for o in OPT_COMBOS:
+        out.append((combo_name(o), 'explicit', dict(o), dict(o)))
+        out.append((combo_name(o), 'sparse', {k: v for k, v in o.items() if v != OPT_DEFAULTS[k]}, dict(o)))
+    return out
+
+
+def _model_evaluate(self, t, **kwargs):
+    exo = self.EXOGENOUS
+    for i, nm in enumerate(self.ENDOGENOUS):
+        self[nm][t] = 0.25 * self[nm][t - 1] + 0.5 * self[exo[i % len(exo)]][t] + i
+
+
+def _linker_evaluate_t_before(self, t, *args, **kwargs):
+    exo = self.EXOGENOUS
+    total = sum(float(sub['Y'][t]) for sub in self.submodels.values())
+    for i, nm in enumerate(self.ENDOGENOUS):
+        self[nm][t] = total + self[exo[i % len(exo)]][t] + i
+
+
+_SUBMODEL = []
+
+
+def submodel_class():
+    if not _SUBMODEL:
+        _SUBMODEL.append(type('Sub', (fsic.BaseModel,), dict(
+            ENDOGENOUS=['Y'], EXOGENOUS=['G'], NAMES=['Y', 'G'], CHECK=['Y'], LAGS=1, LEADS=0,
+            _evaluate=_model_evaluate)))
+    return _SUBMODEL[0]
+
+
+def opts_base(kind, endo, exo):
+    names = list(endo) + list(exo)
+    if kind == 'model':
+        return type('OptModel', (fsic.BaseModel,), dict(
+            ENDOGENOUS=list(endo), EXOGENOUS=list(exo), NAMES=names, CHECK=list(endo), LAGS=1, LEADS=0,
+            _evaluate=_model_evaluate))
+    if kind == 'linker':
+        return type('OptLinker', (fsic.BaseLinker,), dict(
+            ENDOGENOUS=list(endo), EXOGENOUS=list(exo), NAMES=names, CHECK=list(endo),
+            evaluate_t_before=_linker_evaluate_t_before))
+    return fsic.core.containers.VectorContainer
+
+
+def opts_instance(cls, case, kwargs):
+    """An object of the case's kind with the case's data (the same for the aliased class and the twin)."""
+    kind, span = case['kind'], case['span']
+    if kind == 'model':
+        return cls(span, **kwargs)
+    if kind == 'linker':
+        Sub = submodel_class()
+        return cls({'a': Sub(span, G=1.0), 'b': Sub(span, G=2.5)}, **kwargs)
+    obj = cls(span)
+    for nm in case['endo'] + case['exo']:
+        obj.add_variable(nm, case['values'].get(nm, 0.0))
+    return obj
+
+
+def opts_solve(obj, case):
+    how = case['solve']
+    with warnings.catch_warnings():
+        warnings.simplefilter('ignore')
+        if how == 'all':
+            obj.solve(max_iter=20, failures='ignore', errors='ignore')
+        elif how == 'one':
+            obj.solve_t(case['solve_t'], max_iter=20, failures='ignore', errors='ignore')
+
+
+def gen_opts_case(rng, kind=None):
+    kind = kind or rng.choice(['model', 'model', 'model', 'linker', 'linker', 'container'])
+    pub = rng.sample(G_PUBLIC, rng.choice([2, 3, 4]))
+    internal = rng.sample(G_INTERNAL, rng.choice([1, 1, 2, 3]))
+    names = pub + internal
+    rng.shuffle(names)
+    k = rng.randrange(1, len(names))
+    endo, exo = names[:k], names[k:]
+    targets = list(names) + (['status', 'iterations'] if rng.random() < 0.15 else [])
+    items = random_alias_map(rng, targets, G_ALIAS, ['undefined_x'], max_n=6, self_p=0.15)
+    m = dict(items)
+    n = rng.choice([3, 4, 5])
+    span = list(range(2000, 2000 + n))
+    values = {nm: rng.choice([rng.uniform(-5, 5), rng.randrange(-3, 9), 1.0]) for nm in rng.sample(names, rng.randrange(0, len(names) + 1))}
+    names_for_pref = list(dict.fromkeys(list(m) + names))
+    pref = rng.sample(names_for_pref, min(len(names_for_pref), rng.choice([0, 0, 0, 1, 2, 3])))
+    solve = 'none' if kind == 'container' else rng.choice(['none', 'all', 'all', 'one'])
+    return {'part': 'export-opts', 'kind': kind, 'endo': endo, 'exo': exo, 'm': items, 'pref': pref, 'span': span,
+            'values': values, 'solve': solve, 'solve_t': rng.randrange(1, n)}
+
+
+def frame_or_error(f, **kw):
+    try:
+        return f(**kw), None
+    except Hang:
+        raise
+    except Exception as e:  # noqa: BLE001
+        return None, exc_name(e)
+
+
+def frames_equal(x, y):
+    return (list(map(str, x.columns)) == list(map(str, y.columns)) and x.shape == y.shape
+            and list(x.index) == list(y.index) and frame_cols(x) == frame_cols(y))
+
+
+def run_opts_case(ctx, rep, case, budget, tcases=None):
+    m, pref, kind = dict(case['m']), case['pref'], case['kind']
+    Base = opts_base(kind, case['endo'], case['exo'])
+    A = type('Aliased', (AliasMixin, Base), {'ALIASES': dict(m), 'PREFERRED_NAMES': list(pref)})
+    names = case['endo'] + case['exo']
+    # constructor keywords / initial values through random-but-fixed spellings: the first declared spelling
+    first = {}
+    for k in m:
+        first.setdefault(chain_end(m, k), k)
+    kw_t = {} if kind == 'container' else dict(case['values'])
+    kw_a = {first.get(k, k): v for k, v in kw_t.items()}
+    try:
+        with time_limit(2.0):
+            try:
+                a, aerr = opts_instance(A, case, kw_a), None
+            except Hang:
+                raise
+            except Exception as e:  # noqa: BLE001
+                a, aerr = None, exc_name(e)
+    except Hang:
+        budget.hangs += 1
+        rep.violate(hang_key(m), f'constructor did not return within 2 s for ALIASES={m}', case)
+        return 'hang'
+    t = opts_instance(Base, case, kw_t)
+    amb = pref_ambiguous(m, pref)
+    if amb:
+        if a is not None:
+            for _, _, kw, _ in export_variants():
+                _, err = frame_or_error(a.to_dataframe, use_aliases=True, **kw)
+                if err is None:
+                    rep.violate('ambiguous-preferences-accepted', f'PREFERRED_NAMES={pref} names one variable twice '
+                                f'(ALIASES={m}) but neither the constructor nor the export with {kw} raises', case)
+                    break
+        return 'ambiguous-preferences'
+    if a is None:
+        rep.violate('export-opts-constructor', f'{kind} with ALIASES={m}, PREFERRED_NAMES={pref} (unambiguous, acyclic) '
+                    f'raised {aerr} in the constructor', case)
+        return 'ctor'
+    opts_solve(a, case)
+    opts_solve(t, case)
+    internal = [x for x in names if x.startswith('_')]
+    regimes = set()
+    twin_frames = {}
+    for combo, spelling, kw, eff in export_variants():
+        base, berr = frame_or_error(a.to_dataframe, **kw)
+        tkey = tuple(sorted((kw if kind == 'container' else eff).items()))
+        if tkey not in twin_frames:          # (where options are understood, both spellings mean the same frame)
+            twin_frames[tkey] = frame_or_error(t.to_dataframe, **kw)
+        tb, terr = twin_frames[tkey]
+        out, xerr = frame_or_error(a.to_dataframe, use_aliases=True, **kw)
+        rep.dist[f'opts-combo:{kind}:{combo}'] += 1
+        rep.dist[f'opts-spelling:{spelling}'] += 1
+        where = f'{kind}.to_dataframe(**{kw})'
+        if (base is None) != (tb is None) or (base is not None and not frames_equal(base, tb)):
+            rep.violate('export-opts-plain-differs-from-twin', f'{where} through the mixin (use_aliases left out) gives '
+                        f'{berr or list(map(str, base.columns))}, the same object without the mixin '
+                        f'{terr or list(map(str, tb.columns))}', case)
+            return 'plain'
+        if base is None:
+            # the base class does not take these options (plain container): the aliased call must not take them either
+            if out is not None:
+                rep.violate('export-opts-raise-mismatch', f'{where} raises {berr} but with use_aliases=True the same '
+                            'options are accepted (they did not reach the base class)', case)
+                return 'raise-mismatch'
+            regimes.add('options-rejected')
+            continue
+        if tcases is not None:
+            o = eff if kind != 'container' else {'status': False, 'iterations': False, 'include_internal': True}
+            cols = [x for x in names if o['include_internal'] or not x.startswith('_')] + \
+                (['status'] if o['status'] else []) + (['iterations'] if o['iterations'] else [])
+            tcases.append((dict(m=case['m'], pref=pref, names=names, **o), cols,
+                           ','.join(str(c) for c in out.columns) if out is not None else '!' + str(xerr),
+                           dict(case, options=kw)))
+        regime = export_oracle(rep, case, m, pref, base, out, xerr, True, prefix='export-opts')
+        regimes.add(regime)
+        if regime not in ('ok', 'outside-guard'):
+            return 'export-' + regime
+        if kind != 'container':
+            labels = [str(c) for c in base.columns]
+            hidden = [x for x in internal if x in labels]
+            for col, want in (('status', eff['status']), ('iterations', eff['iterations'])):
+                if (col in labels) != want and col not in names:
+                    rep.violate('export-opts-status-column', f'{where}: column {col!r} present={col in labels}, '
+                                f'requested={want}', case)
+                    return 'status-column'
+            if bool(hidden) != (eff['include_internal'] and bool(internal)):
+                rep.violate('export-opts-internal-columns', f'{where}: internal variables {internal}, exported {hidden}', case)
+                return 'internal-columns'
+            if out.shape[1] != len(names) - (0 if eff['include_internal'] else len(internal)) + eff['status'] + eff['iterations']:
+                rep.violate('export-opts-shape', f'{where} with use_aliases=True has {out.shape[1]} columns for names {names}', case)
+                return 'shape'
+    return 'export-' + '+'.join(sorted(regimes))
+
+
+def check_export_opts(ctx, rep, rng, count, budget=None):
+    budget = budget or Budget()
+    tcases = []
+    for i in range(count):
+        if budget.exhausted:
+            break
+        case = gen_opts_case(rng)
+        m = dict(case['m'])
+        if not CYCLIC_OK[0] and not is_plain(m):
+            continue
+        regime = run_opts_case(ctx, rep, case, budget, tcases)
+        internal_aliased = any(str(chain_end(m, k)).startswith('_') for k in strip_self(m))
+        rep.case(('G', json.dumps(case, sort_keys=True)), nontrivial=bool(strip_self(m)),
+                 sample=sample_once('G', 59, rep.evaluations, {'part': 'G', 'case': case, 'regime': regime}))
+        rep.dist['opts-kind:' + case['kind']] += 1
+        rep.dist['opts-solved:' + case['solve']] += 1
+        rep.dist['opts:' + regime] += 1
+        rep.dist['opts-internal-variable-aliased:' + str(internal_aliased)] += 1
+        rep.dist['opts-map:' + kind_of(m)] += 1
+    if not ctx.oracle_only and tcases:
+        outs = ctx.drive([line('alias_rename_opts', c) for c, _, _, _ in tcases])
+        for (c, cols, impl, case), a in zip(tcases, outs):
+            if not same_columns(dict(c['m']), c['pref'], cols, a, impl):
+                rep.disagree('AliasMixin.to_dataframe(use_aliases=True, **options) columns: model != impl', case, a, impl)
+
+
+# ---------------------------------------------------------------------------------------------------------------
+# (H) class hierarchies: every instance lives by its own class's ALIASES as they are when it is created
+
+class HierSim:
+    """Python's class-attribute rules, restated: every class has its own entries; `Cls.attr` finds the nearest own
+    entry walking up the bases; below that the mixin's `{}` / `[]`.  Independent of the Lean model."""
+    EMPTY = {'ALIASES': dict, 'PREFERRED_NAMES': list}
+
+    def __init__(self):
+        self.cls = []
+
+    def define(self, parent, aliases, pref):
+        self.cls.append({'parent': parent, 'ALIASES': None if aliases is None else dict(map(tuple, aliases)),
+                         'PREFERRED_NAMES': None if pref is None else list(pref)})
+        return len(self.cls) - 1
+
+    def owner(self, c, attr):
+        while c is not None:
+            if self.cls[c][attr] is not None:
+                return c
+            c = self.cls[c]['parent']
+        return None
+
+    def lookup(self, c, attr):
+        o = self.owner(c, attr)
+        return self.EMPTY[attr]() if o is None else self.cls[o][attr]
+
+    def apply(self, ev):
+        """Class-level effect of an event; False = the event cannot be carried out (left out of the run)."""
+        e = ev['e']
+        if e == 'class':
+            self.define(ev['parent'], ev['aliases'], ev['pref'])
+        elif e == 'set':
+            self.cls[ev['cls']]['ALIASES'] = dict(map(tuple, ev['aliases']))
+        elif e == 'setpref':
+            self.cls[ev['cls']]['PREFERRED_NAMES'] = list(ev['pref'])
+        elif e == 'put':
+            o = self.owner(ev['cls'], 'ALIASES')
+            if o is None:
+                return False          # would write into AliasMixin.ALIASES itself
+            self.cls[o]['ALIASES'][ev['k']] = ev['v']
+        elif e == 'del':
+            if self.cls[ev['cls']]['ALIASES'] is None:
+                return False
+            self.cls[ev['cls']]['ALIASES'] = None
+        return True
+
+
+HIER_SCENARIOS = {
+    # (parent, declares ALIASES, declares PREFERRED_NAMES: True / False / None = at random)
+    'child-redeclares': [(None, True, None), (0, True, None)],
+    'child-inherits': [(None, True, None), (0, False, None)],
+    'grandchild-inherits-nearest': [(None, True, None), (0, True, None), (1, False, False)],
+    'grandchild-skips-to-root': [(None, True, None), (0, False, False), (1, False, None)],
+    'siblings': [(None, None, None), (0, True, None), (0, True, None)],
+    'preferences-redeclared-only': [(None, True, True), (0, False, True)],
+    'aliases-redeclared-preferences-inherited': [(None, True, True), (0, True, False)],
+    'root-undeclared': [(None, False, False), (0, True, None), (1, False, False)],
+}
+
+
+def gen_hier_case(rng):
+    script = rng.randrange(len(SCRIPTS))
+    variables = list(built(script).NAMES)
+    pool = rng.sample(E_ALIAS, 5)        # few names: the classes' maps overlap and disagree on them
+    scenario = rng.choice(list(HIER_SCENARIOS) + ['random-tree'] * 2)
+    if scenario == 'random-tree':
+        shape = [(None, None, None)]
+        for i in range(1, rng.choice([2, 3, 4, 5])):
+            shape.append((rng.randrange(i), None, None))
+    else:
+        shape = HIER_SCENARIOS[scenario]
+    order = rng.choice(['parent-first', 'child-first', 'interleaved'])
+    n = rng.choice([3, 4])
+    span = list(range(2000, 2000 + n))
+    sim = HierSim()
+    events, defs = [], []
+
+    def a_map():
+        return random_alias_map(rng, variables, pool, ['undefined_x'], max_n=4, self_p=0.12)
+
+    def a_pref(c_aliases):
+        names = list(dict.fromkeys([k for k, _ in c_aliases] + variables))
+        return rng.sample(names, min(len(names), rng.choice([1, 1, 2])))
+    pre = HierSim()                       # the classes as declared, to spell preferences by the visible map
+    for parent, da, dp in shape:
+        da = rng.random() < 0.65 if da is None else da
+        dp = rng.random() < 0.3 if dp is None else dp
+        aliases = a_map() if da else None
+        inherited = aliases if aliases is not None else (list(pre.lookup(parent, 'ALIASES').items()) if parent is not None else [])
+        defs.append({'e': 'class', 'parent': parent, 'aliases': aliases, 'pref': a_pref(inherited) if dp else None})
+        pre.apply(defs[-1])
+    ncls = len(defs)
+    late = rng.random() < 0.3             # subclasses are defined only after the root class has an instance
+    live = []                             # instance number -> (class, map at creation) as the generator sees them
+    ninst = [0]
+
+    def emit(ev):
+        if sim.apply(ev):
+            events.append(ev)
+            return True
+        return False
+
+    def new(c):
+        m = dict(sim.lookup(c, 'ALIASES'))
+        if not is_acyclic(m):
+            return
+        ev = {'e': 'new', 'cls': c, 'kwargs': gen_kwargs(rng, m, variables, n, bad=False),
+              'ops': gen_ops(rng, m, variables, span, rng.randrange(0, 4), solve=rng.random() < 0.3)}
+        events.append(ev)
+        live.append((c, m, pref_ambiguous(m, list(sim.lookup(c, 'PREFERRED_NAMES')))))
+        ninst[0] += 1
+
+    def round_of_instances(defined):
+        cs = list(defined)
+        if order == 'child-first':
+            cs.reverse()
+        elif order == 'interleaved':
+            cs = cs + rng.sample(cs, rng.randrange(0, len(cs) + 1))
+            rng.shuffle(cs)
+        for c in cs:
+            new(c)
+    if late:
+        emit(defs[0])
+        new(0)
+        for d in defs[1:]:
+            emit(d)
+        round_of_instances(range(ncls))
+    else:
+        for d in defs:
+            emit(d)
+        round_of_instances(range(ncls))
+    # class-level changes once instances exist, then new instances
+    changes = []
+    for _ in range(rng.choice([0, 1, 1, 2])):
+        c = rng.randrange(ncls)
+        kind = rng.choice(['set', 'set', 'put', 'put', 'setpref', 'del'])
+        if kind == 'set':
+            ev = {'e': 'set', 'cls': c, 'aliases': a_map()}
+        elif kind == 'put':
+            cur = dict(sim.lookup(c, 'ALIASES'))
+            k = rng.choice(pool)
+            v = rng.choice(variables + [x for x in cur if x != k])
+            cur[k] = v
+            if not is_acyclic(cur):
+                continue
+            ev = {'e': 'put', 'cls': c, 'k': k, 'v': v}
+        elif kind == 'setpref':
+            ev = {'e': 'setpref', 'cls': c, 'pref': a_pref(list(sim.lookup(c, 'ALIASES').items()))}
+        else:
+            ev = {'e': 'del', 'cls': c}
+        if emit(ev):
+            changes.append(kind)
+            if rng.random() < 0.5:
+                usable = [i for i, (_, _, amb) in enumerate(live) if not amb]
+                if usable:
+                    i = rng.choice(usable)
+                    events.append({'e': 'ops', 'inst': i,
+                                   'ops': gen_ops(rng, live[i][1], variables, span, rng.randrange(1, 4), solve=False)})
+            if rng.random() < 0.3 and live:
+                events.append({'e': 'copy', 'inst': rng.randrange(len(live))})
+            round_of_instances(range(ncls))
+    combo = rng.choice(OPT_COMBOS)
+    return {'part': 'hier', 'script': script, 'span': span, 'pool': pool, 'scenario': scenario, 'order': order,
+            'late_classes': late, 'changes': changes, 'events': events, 'export_options': dict(combo)}
+
+
+def hier_events_for_model(events):
+    return [{k: v for k, v in ev.items() if k in ('e', 'parent', 'aliases', 'pref', 'cls', 'k', 'v')}
+            for ev in events if ev['e'] not in ('ops', 'copy')]
+
+
+def describe_class(sim, c):
+    d = sim.cls[c]
+    return f'class {c} (parent {d["parent"]}, own ALIASES {d["ALIASES"]}, own PREFERRED_NAMES {d["PREFERRED_NAMES"]})'
+
+
+def probe_names(a, t, m, universe):
+    """Reading through every name of the universe: a name that `m` resolves to a variable must hand out that
+    variable's own series (the same object as reading the variable), every other name must do what it does on the
+    twin.  Returns None or a description."""
+    for nm in universe:
+        want = chain_end(m, nm)
+        try:
+            got = getattr(a, nm)
+        except Exception as e:  # noqa: BLE001
+            got = e
+        if want in a.index:
+            try:
+                ref = getattr(a, want)
+            except Exception as e:  # noqa: BLE001
+                ref = e
+            if got is not ref:
+                hit = [v for v in a.index if isinstance(got, np.ndarray) and got is a.__dict__.get('_' + v)]
+                return nm, f'{nm!r} should name the variable {want!r} but reads ' + (
+                    f'the variable {hit[0]!r}' if hit else f'{type(got).__name__}')
+        else:
+            rt = apply_op(t, {'k': 'getattr'}, [want])
+            ra = ('exc', exc_name(got)) if isinstance(got, Exception) else ('ok', fingerprint(got))
+            if ra != rt:
+                hit = [v for v in a.index if isinstance(got, np.ndarray) and got is a.__dict__.get('_' + v)]
+                return nm, f'{nm!r} is no alias in the map this instance was created with (it resolves to {want!r}) but reading it gives ' + (
+                    f'the variable {hit[0]!r}' if hit else short(ra)) + f'; the twin: {short(rt)}'
+    return None
+
+
+def run_hier_case(ctx, rep, case, budget, tcases=None):
+    jc = jsonable_case(case)
+    Base = built(case['script'])
+    variables = list(Base.NAMES)
+    universe = list(case['pool']) + variables + ['undefined_x']
+    span = case['span']
+    sim = HierSim()
+    classes, twins, objs = [], [], []      # objs: per `new` event (a | None, t, m, pref, cls)
+    impl = []
+
+    def class_attrs_intact(after):
+        for c, K in enumerate(classes):
+            for attr in ('ALIASES', 'PREFERRED_NAMES'):
+                own = K.__dict__.get(attr)
+                want = sim.cls[c][attr]
+                if (own is None) != (want is None) or (own is not None and (
+                        dict(own) != want if attr == 'ALIASES' else list(own) != want)):
+                    rep.violate('hier-class-attribute-changed', f'after {after} {describe_class(sim, c)} has '
+                                f'{attr}={own!r} in its own __dict__', jc)
+                    return False
+        return True
+
+    def check_probe(i, when, key):
+        a, t, m, pref, c = objs[i]
+        bad = probe_names(a, t, m, universe)
+        if bad is not None:
+            rep.violate(key, f'instance {i} of {describe_class(sim, c)}, created when its class\'s ALIASES were {m}, '
+                        f'{when}: {bad[1]}', jc)
+            return False
+        return True
+    for n_ev, ev in enumerate(case['events']):
+        e = ev['e']
+        if e == 'class':
+            body = {}
+            if ev['aliases'] is not None:
+                body['ALIASES'] = dict(map(tuple, ev['aliases']))
+            if ev['pref'] is not None:
+                body['PREFERRED_NAMES'] = list(ev['pref'])
+            c = len(classes)
+            classes.append(type(f'K{c}', (AliasMixin, Base) if ev['parent'] is None else (classes[ev['parent']],), body))
+            twins.append(type(f'K{c}Twin', (Base,) if ev['parent'] is None else (twins[ev['parent']],), {}))
+            sim.apply(ev)
+        elif e == 'set':
+            classes[ev['cls']].ALIASES = dict(map(tuple, ev['aliases']))
+            sim.apply(ev)
+        elif e == 'setpref':
+            classes[ev['cls']].PREFERRED_NAMES = list(ev['pref'])
+            sim.apply(ev)
+        elif e == 'put':
+            if sim.owner(ev['cls'], 'ALIASES') is None:
+                continue
+            classes[ev['cls']].ALIASES[ev['k']] = ev['v']
+            sim.apply(ev)
+        elif e == 'del':
+            if sim.cls[ev['cls']]['ALIASES'] is None:
+                continue
+            del classes[ev['cls']].ALIASES
+            sim.apply(ev)
+        elif e == 'new':
+            c = ev['cls']
+            m = dict(sim.lookup(c, 'ALIASES'))
+            pref = list(sim.lookup(c, 'PREFERRED_NAMES'))
+            kw_a = ev['kwargs']
+            kw_t = {chain_end(m, k): v for k, v in kw_a.items()}
+            who = f'instance {len(objs)} of {describe_class(sim, c)}: '
+            try:
+                with time_limit(2.0):
+                    try:
+                        a, aerr = classes[c](span, **kw_a), None
+                    except Hang:
+                        raise
+                    except Exception as ex:  # noqa: BLE001
+                        a, aerr = None, exc_name(ex)
+            except Hang:
+                budget.hangs += 1
+                rep.violate(hang_key(m), f'constructor did not return within 2 s for ALIASES={m}', jc)
+                return 'hang'
+            t = twins[c](span, **kw_t)
+            objs.append((a, t, m, pref, c))
+            if not class_attrs_intact(f'creating an instance of class {c} (event {n_ev})'):
+                return 'class-attribute'
+            if not is_acyclic(m):
+                if a is not None:
+                    rep.violate('cyclic-aliases-accepted', f'{who}constructor accepted the cyclic map ALIASES={m}', jc)
+                    return 'cycle'
+                impl.append('ValueError')
+                continue
+            if pref_ambiguous(m, pref):
+                if a is not None:
+                    _, err = frame_or_error(a.to_dataframe, use_aliases=True)
+                    if err is None:
+                        rep.violate('ambiguous-preferences-accepted', f'{who}PREFERRED_NAMES={pref} names one variable '
+                                    f'twice (ALIASES={m}) but neither the constructor nor the export raises', jc)
+                        return 'ambiguous'
+                impl.append('ValueError' if a is None else None)
+                objs[-1] = (None, t, m, pref, c)
+                continue
+            if a is None:
+                # the keywords are spelled by the class's own map at this moment; the twin took the canonical ones
+                rep.violate('hier-instance-map', f'{who}constructor raised {aerr} for keywords {list(kw_a)} spelled by '
+                            f'its class\'s ALIASES={m} (canonical: {list(kw_t)})', jc)
+                return 'ctor'
+            sa, st = full_state(a, MIXIN_ATTRS, t), full_state(t)
+            if sa != st:
+                rep.violate('hier-instance-map', f'{who}state after construction with keywords {list(kw_a)} (its '
+                            f'class\'s ALIASES={m}) differs from the twin built with {list(kw_t)}: ' + diff_state(sa, st), jc)
+                return 'ctor-state'
+            if not check_probe(len(objs) - 1, 'right after construction', 'hier-instance-map'):
+                return 'instance-map'
+            r = drive_ops(rep, jc, a, t, m, ev['ops'], prefix='hier-', who=who)
+            if r is not None:
+                return r
+            impl.append(None)      # filled in at the end
+        elif e == 'ops':
+            if ev['inst'] >= len(objs) or objs[ev['inst']][0] is None:
+                continue
+            a, t, m, pref, c = objs[ev['inst']]
+            if not check_probe(ev['inst'], f'after later class-level events (event {n_ev})', 'hier-existing-instance-changed'):
+                return 'existing-instance'
+            r = drive_ops(rep, jc, a, t, m, ev['ops'], prefix='hier-', who=f'(existing) instance {ev["inst"]} of class {c}: ')
+            if r is not None:
+                return r
+        elif e == 'copy':
+            # a copy of an existing instance, made after the class changed, is the instance over again
+            if ev['inst'] >= len(objs) or objs[ev['inst']][0] is None:
+                continue
+            a, t, m, pref, c = objs[ev['inst']]
+            try:
+                a2, cerr = a.copy(), None
+            except Exception as ex:  # noqa: BLE001
+                a2, cerr = None, exc_name(ex)
+            t2 = t.copy()
+            bad = None
+            cur_m, cur_pref = dict(sim.lookup(c, 'ALIASES')), list(sim.lookup(c, 'PREFERRED_NAMES'))
+            if a2 is None and (not is_acyclic(cur_m) or pref_ambiguous(cur_m, cur_pref)):
+                # copy() goes through the constructor, which validates the class's *current* declaration: where that
+                # is one the constructor rejects (no new instance can exist either) the property claims nothing
+                rep.dist['hier-copy:class-declaration-now-rejected'] += 1
+                continue
+            rep.dist['hier-copy:compared'] += 1
+            if a2 is None:
+                bad = f'copy() raised {cerr}'
+            elif full_state(a2, MIXIN_ATTRS, t2) != full_state(t2):
+                bad = 'state differs from the twin\'s copy: ' + diff_state(full_state(a2, MIXIN_ATTRS, t2), full_state(t2))
+            else:
+                pr = probe_names(a2, t2, m, universe)
+                bad = pr[1] if pr is not None else None
+            if bad is not None:
+                rep.violate('hier-copy-map', f'copy of instance {ev["inst"]} of {describe_class(sim, c)} (created when its '
+                            f'class\'s ALIASES were {m}), taken after later class-level events (event {n_ev}): {bad}', jc)
+                return 'copy'
+    # at the end: every instance still lives by the map of its creation; export
+    kw = case['export_options']
+    regimes = set()
+    cols = None
+    last_of_class = {}
+    for i, (a, t, m, pref, c) in enumerate(objs):
+        if a is not None:
+            last_of_class[c] = i
+    exported = set(sorted(last_of_class.values())[-3:]) | ({min(last_of_class.values())} if last_of_class else set())
+    for i, (a, t, m, pref, c) in enumerate(objs):
+        if a is None:
+            continue
+        if not check_probe(i, 'at the end of the history', 'hier-existing-instance-changed'):
+            return 'existing-instance'
+        if i not in exported:
+            try:
+                impl[i] = '|'.join([str(c), pairs(a.aliases.items()), ','.join(a.preferred_names),
+                                    pairs((nm, a._resolve_alias(nm)) for nm in universe), '*'])
+            except Exception as ex:  # noqa: BLE001
+                impl[i] = 'raised:' + exc_name(ex)
+            continue
+        base, berr = frame_or_error(a.to_dataframe, **kw)
+        tb, terr = frame_or_error(t.to_dataframe, **kw)
+        out, xerr = frame_or_error(a.to_dataframe, use_aliases=True, **kw)
+        if base is None or tb is None or not frames_equal(base, tb):
+            rep.violate('hier-twin-diverges:to_dataframe', f'instance {i} of class {c}: plain export with {kw} differs '
+                        f'from the twin\'s ({berr}, {terr})', jc)
+            return 'export'
+        regime = export_oracle(rep, jc, m, pref, base, out, xerr, True, prefix='hier-export')
+        regimes.add(regime)
+        if regime not in ('ok', 'outside-guard'):
+            return 'export-' + regime
+        cols = [str(x) for x in base.columns]
+        try:
+            impl[i] = '|'.join([str(c), pairs(a.aliases.items()), ','.join(a.preferred_names),
+                                pairs((nm, a._resolve_alias(nm)) for nm in universe),
+                                ','.join(str(x) for x in out.columns) if out is not None else '!' + str(xerr)])
+        except Exception as ex:  # noqa: BLE001
+            impl[i] = 'raised:' + exc_name(ex)
+    if tcases is not None and cols is not None:
+        tcases.append(({'events': hier_events_for_model(jc['events']), 'names': universe, 'cols': cols}, impl,
+                       [(m, pref) for _, _, m, pref, _ in objs], jc))
+    return 'ok:' + '+'.join(sorted(regimes)) if regimes else 'no-instance'
+
+
+def same_instance(model, impl, m, pref, cols):
+    if impl is None:                       # ambiguous preferences accepted by the constructor: export-time matter
+        return True
+    if model == 'ValueError' or impl == 'ValueError':
+        return model == impl
+    a, b = model.split('|'), impl.split('|')
+    if len(a) != 5 or len(b) != 5:
+        return False
+    return (a[0] == b[0] and sorted(a[1].split(',')) == sorted(b[1].split(',')) and a[2] == b[2] and a[3] == b[3]
+            and (b[4] == '*' or same_columns(m, pref, cols, a[4], b[4])))
+
+
+def check_hierarchies(ctx, rep, rng, count, budget=None):
+    budget = budget or Budget()
+    tcases = []
+    for _ in range(count):
+        if budget.exhausted:
+            break
+        case = gen_hier_case(rng)
+        maps = [dict(map(tuple, ev['aliases'])) for ev in case['events'] if ev.get('aliases')]
+        if not CYCLIC_OK[0] and not all(is_plain(m) for m in maps):
+            continue
+        regime = run_hier_case(ctx, rep, case, budget, tcases)
+        jc = jsonable_case(case)
+        news = [ev for ev in case['events'] if ev['e'] == 'new']
+        rep.case(('H', json.dumps(jc, sort_keys=True, default=str)), nontrivial=len(maps) >= 1 and len(news) >= 2,
+                 sample=sample_once('H', 97, rep.evaluations, {'part': 'H', 'case': jc, 'regime': regime}))
+        rep.dist['hier:' + regime.split(':')[0]] += 1
+        rep.dist['hier-scenario:' + case['scenario']] += 1
+        rep.dist['hier-order:' + case['order']] += 1
+        rep.dist[f'hier-scenario-order:{case["scenario"]}:{case["order"]}'] += 1
+        rep.dist['hier-late-subclass:' + str(case['late_classes'])] += 1
+        rep.dist['hier-instances:' + str(min(len(news), 8))] += 1
+        for ch in case['changes'] or ['none']:
+            rep.dist['hier-change-after-instance:' + ch] += 1
+        for ev in case['events']:
+            rep.dist['hier-event:' + ev['e']] += 1
+    if not ctx.oracle_only and tcases:
+        outs = ctx.drive([line('alias_hier', c) for c, _, _, _ in tcases])
+        for (c, impl, mp, jc), a in zip(tcases, outs):
+            got = a.split(' ; ') if a else []
+            if len(got) != len(impl) or not all(same_instance(x, y, m, pref, c['cols'])
+                                                for x, y, (m, pref) in zip(got, impl, mp)):
+                rep.disagree('class hierarchy: self.aliases / preferred_names / resolution / export labels of every '
+                             'instance: model != impl', jc, a, ' ; '.join(str(x) for x in impl))
+
+
+# ---------------------------------------------------------------------------------------------------------------
 
 def run(ctx, rep):
     quick = ctx.tier == 'quick'
@@ -1242,6 +2011,15 @@ def run(ctx, rep):
         check_histories(ctx, rep, ctx.sub_rng('history'), (2500 if quick else 60000) * ctx.scale, budget)
     if not budget.exhausted:
         check_twins(ctx, rep, ctx.sub_rng('twin'), (700 if quick else 15000) * ctx.scale, budget)
+    if not budget.exhausted:
+        check_export_opts(ctx, rep, ctx.sub_rng('export-opts'), (150 if quick else 2000) * ctx.scale, budget)
+        rep.notes.append(f'(G) {sum(v for k, v in rep.dist.items() if k.startswith("opts-kind:"))} objects (models, '
+                         f'linkers, containers) x {len(OPT_COMBOS)} flag combinations x 2 spellings')
+    if not budget.exhausted:
+        check_hierarchies(ctx, rep, ctx.sub_rng('hier'), (350 if quick else 6000) * ctx.scale, budget)
+        rep.notes.append(f'(H) {rep.dist["hier-event:class"]} classes, {rep.dist["hier-event:new"]} constructor calls, '
+                         f'{sum(v for k, v in rep.dist.items() if k.startswith("hier-change-after-instance:") and not k.endswith(":none"))} '
+                         'class-level changes after the first instance')
     rep.exhaustive = False
 
 
@@ -1249,11 +2027,16 @@ def replay(ctx, rep, case):
     part = case.get('part')
     budget = Budget()
     items = case.get('m')
-    if items is not None and not is_plain(dict(items)):
+    watch = [items] if items is not None else []
+    if part == 'hier':
+        watch = [ev['aliases'] for ev in case['events'] if ev.get('aliases')]
+    for its in watch:
+        if is_plain(dict(map(tuple, its))):
+            continue
         # a cyclic/self map goes through the watchdog before it is touched in-process
-        res = watchdog_collect(watchdog_start(items), time.time() + WATCHDOG_BACKSTOP)
+        res = watchdog_collect(watchdog_start(its), time.time() + WATCHDOG_BACKSTOP)
         print('  watchdog:', res)
-        if not judge_watchdog(rep, case, dict(items), res) or part == 'cyclic':
+        if not judge_watchdog(rep, case, dict(map(tuple, its)), res) or part == 'cyclic':
             return
     if part == 'shorten':
         check_shorten(ctx, rep, [case['m']], case['names'], 'replay', budget)
@@ -1282,5 +2065,25 @@ def replay(ctx, rep, case):
     elif part == 'twin':
         c = unjson_case({k: v for k, v in case.items() if k != 'evaluate_source'})
         print('  regime:', run_twin_case(ctx, rep, c, budget))
+    elif part == 'export-opts':
+        c = {k: v for k, v in case.items() if k != 'options'}
+        tc = []
+        print('  regime:', run_opts_case(ctx, rep, c, budget, tc))
+        try:
+            outs = ctx.drive([line('alias_rename_opts', x) for x, _, _, _ in tc])
+            for (x, cols, impl, _), a in zip(tc, outs):
+                print('  options', {k: x[k] for k in OPT_FLAGS}, 'model:', a, '| impl:', impl)
+        except Exception as e:  # noqa: BLE001
+            print('  model: <driver unavailable>', e)
+    elif part == 'hier':
+        c = unjson_case(case)
+        tc = []
+        print('  regime:', run_hier_case(ctx, rep, c, budget, tc))
+        try:
+            for x, impl, _, _ in tc:
+                print('  model:', ctx.drive([line('alias_hier', x)])[0])
+                print('  impl :', ' ; '.join(str(y) for y in impl))
+        except Exception as e:  # noqa: BLE001
+            print('  model: <driver unavailable>', e)
     else:
         print('  unknown case kind', part)
